@@ -3,7 +3,7 @@ CONSTANTS
   SdsWriters = {"DFSD", "SD", "NC"}
   RasWriters = {}
   Shapes <- ShapesA
-  Types = {"i8", "u8", "i16", "u16", "i32", "u32", "f32", "f64", "c8", "uc8"}
+  Types = {"i8", "u8", "i16", "u16", "i32", "u32", "f32", "f64", "c8", "uc8", "li16", "lu32", "lf32", "lf64"}
   RasDims <- RDimsNone
   ScaleSets <- ScalesNo
   Grows = {}
